@@ -12,7 +12,7 @@ out = {
         "guard": "verif",
         "enable": "go build/test -tags verif: internal/verifhook.Point calls a registered callback (empty function without the tag); harnesses are injected with go/packages Overlay and `go test -tags verif -overlay`",
         "baseline_off_cmd": "cd /repo && GOFLAGS=-mod=mod GOPROXY=off go test -vet=off -count=1 -timeout 25m ./...",
-        "source_commits": ["11145cf"],
+        "source_commits": ["11145cf", "069528d"],
         "add_only": True,
     },
     "engines": [{
